@@ -123,3 +123,9 @@ ENTRIES += [
          witness={'kind': 'openapi-3.1.0', 'extractors': ['pydantic'], 'endpoints': 1, 'generations': 1, 'spec_opts': _O16, 'path': '/api', 'naming': 'dotted-twins',
                   'methods': [{**_M16, 'params': [['int', False], ['int', False]]}, {**_M16, 'params': [['str', False]], 'ret': 'str'}]}),
 ]
+ENTRIES += [
+    dict(id='F28', property='C16', status='fixed', commit='1f1314a', bucket='C16/meta-schema/openrpc',
+         what="DocstringSchemaExtractor wrote \"type\": null into the schema of a ':param name:' / ':returns:' field documented without a type (OpenRPC documents failed "
+              "their meta-schema; OpenAPI documents carried the null silently)",
+         witness={'kind': 'openrpc', 'extractors': ['docstring'], 'methods': [{**_M16, 'doc': 'fields-only'}], 'endpoints': 1, 'generations': 1, 'spec_opts': _O16, 'path': '/api'}),
+]
